@@ -14,7 +14,7 @@ RULE = ('seeded sequences (length <= 6) over {connect-ok, connect-fail(transport
         'made and the pull destination must not exist afterwards. non-trivial = the sequence contains a failed connect followed by an operation; '
         'distinct = event-log digests')
 ASSUMPTIONS = ['the <=5-step space is sampled by seed, not enumerated']
-EXPECT_PROBES = {'all': ['c13_failed_connect_then_op', 'c13_op_after_close', 'c13_empty_path', 'c13_reconnect_ok', 'c13_deferred_generator', 'c13_half_read_generator_dropped_unconnected', 'c13_transport_close_raised', 'open_refused', 'c13_small_maxdata']}
+EXPECT_PROBES = {'all': ['c13_failed_connect_then_op', 'c13_op_after_close', 'c13_empty_path', 'c13_reconnect_ok', 'c13_deferred_generator', 'c13_half_read_generator_dropped_unconnected', 'c13_transport_close_raised', 'open_refused', 'c13_small_maxdata', 'c13_available_seen_during_connect']}
 OPS = ['shell', 'exec_out', 'streaming_shell', 'streaming_shell', 'root', 'reboot', 'list', 'stat', 'pull', 'push']
 OWN = ('wrong-result', 'unexpected-exception', 'timeout-instead-of-result', 'missing-exception', 'wrong-exception', 'hang', 'no-termination',
        'bytes-written-unconnected', 'transport-call-unconnected', 'file-created-unconnected', 'available-wrong', 'push-content', 'push-missing', 'push-incomplete')
@@ -35,7 +35,7 @@ def generate(seed, tier):
     for i in range(n):
         c = g.int(0, 9)
         if c <= 2:
-            kind = 'ok' if g.chance(0.45) else g.pick(FAILS)
+            kind = 'ok' if g.chance(0.45) else g.pick(FAILS + ['okauth'])
             op = {'op': 'connect', 'expect_connect': kind, 'rt': 0.5, 'tt': 0.2, 'at': 0.3}
             if kind in ('refused', 'timeout'):
                 plan.append(kind)
@@ -49,6 +49,11 @@ def generate(seed, tier):
                 elif kind == 'badchallenge':
                     auth.append({'accept_key': None, 'pubkey': 'silent', 'bad_challenge_at': 0})
                     op['keys'] = [[0, 'pythonrsa']]
+                elif kind == 'okauth':
+                    # the key is unknown to the device, the user accepts the public key; the auth callback looks at `available` meanwhile
+                    auth.append({'accept_key': None, 'pubkey': 'accept', 'think_s': 0.0})
+                    op['keys'] = [[0, 'pythonrsa']]
+                    op['auth_cb'] = 'ok'
                 else:
                     auth.append(None)
                 sess += 1
@@ -113,6 +118,10 @@ def generate(seed, tier):
         d.pop('auth')
     d['silent_sessions'] = silent
     d['cmds'].setdefault('__root__', {'content': {'size': 0}, 'cuts': None})
+    if g.chance(0.4):
+        # what adbd says when asked for root (whatever it says, root() is an ordinary operation: the connection state is the caller's business)
+        txt = g.pick([b'restarting adbd as root\n', b'restarting adbd as root\n', b'adbd is already running as root\n', b'adbd cannot run as root in production builds\n'])
+        d['cmds']['__root__'] = {'content': {'literal_hex': txt.hex(), 'size': len(txt)}, 'cuts': None}
     cfg = {'frag': g.pick(['whole', 'mixed']), 'call_cost': 1e-5, 'connect_plan': plan, 'idle_cost': 0.01}
     scn = {'api': g.pick(['sync', 'async']), 'transport': 'mem', 'device': d, 'config': cfg, 'actors': [ops], 'object': {'banner': 'simhost'}}
     return {'seed': seed, 'scn': scn}
@@ -138,8 +147,12 @@ def evaluate(case, tapes=None):
         if k == 'connect' and rec['ok'] and scn['device']['maxdata'] < 4096:
             pr['c13_small_maxdata'] = 1
         if k == 'connect':
-            connected = op.get('expect_connect') == 'ok'
+            connected = op.get('expect_connect') in ('ok', 'okauth')
             last_connect_failed = not connected
+            if rec.get('auth_cb_calls'):
+                pr['c13_available_seen_during_connect'] = 1
+                if rec.get('auth_cb_available'):
+                    probs.append(O.P('available-wrong', 'op#%d connect: `available` read True from the auth callback, i.e. while the connect() attempt was still under way' % i))
             if connected and i > 0:
                 pr['c13_reconnect_ok'] = 1
         elif k == 'close':
